@@ -1,4 +1,5 @@
 import PyTrie.Lemmas.NodesLoopD
+import PyTrie.Lemmas.NodesLoopDPartial
 import PyTrie.Lemmas.PartialInv
 import PyTrie.Props.C10
 /-! # C10 at raw level — `NodeIterator.nodes()` over the database of encoded bodies
@@ -47,5 +48,22 @@ theorem raw_nodes_is_preorder (H : Bytes → Bytes) (hlen : ∀ b, (H b).length 
     rw [hg]; rfl
   rw [nodesOfD_refines H hlen s.store.base T.root T.tree hcanon hp.1 hrootIn hst fuel, htree,
     nodes_loop_is_preorder ops fuel hf]
+
+/-- **`nodes()` over an incomplete database** (bodies withheld, pruned, not yet downloaded; a cache that may hold stale parents of
+    earlier versions): the loop yields exactly the raw images of the tree-level loop, or stops with `MissingTraversalNode`
+    naming a node that really is absent — never a wrong node, a skipped subtree or a present node reported missing -/
+theorem raw_nodes_loop_partial (H : Bytes → Bytes) (hlen : ∀ b, (H b).length = 32) (db : Db) (root : Hash) (t : Node)
+    (hc : Canon t) (hroot : RootPartial H db root t) (hst : PartialD H db t) (fuel : Nat) (fog : Fog) (cache : Frontier Node)
+    (hcache : CacheOkD H db cache) :
+    (∃ h pre, nodesLoopD H db root fuel fog (mapCache H cache) = .error (.missing h pre) ∧ lookup db h = none) ∨
+    nodesLoopD H db root fuel fog (mapCache H cache) =
+      .ok ((nodesLoop t fuel fog cache).map (fun e => (e.1, Ann.toD H (annotate e.2)))) :=
+  nodesLoopD_partial H hlen db root t hc hroot hst fuel fog cache hcache
+
+theorem raw_nodes_partial (H : Bytes → Bytes) (hlen : ∀ b, (H b).length = 32) (db : Db) (root : Hash) (t : Node)
+    (hc : Canon t) (hroot : RootPartial H db root t) (hst : PartialD H db t) (fuel : Nat) :
+    (∃ h pre, nodesOfD H db root fuel = .error (.missing h pre) ∧ lookup db h = none) ∨
+    nodesOfD H db root fuel = .ok ((nodesOf t fuel).map (fun e => (e.1, Ann.toD H (annotate e.2)))) :=
+  nodesOfD_partial H hlen db root t hc hroot hst fuel
 
 end PyTrie.Props.C10
